@@ -1,6 +1,7 @@
 import IncanModel.Sem.Regroup
 import IncanModel.Sem.Derive
 import IncanModel.Driver.Util
+import IncanModel.Sem.Comprehension
 namespace Incan.Driver
 open Incan.Core
 
@@ -169,6 +170,20 @@ def dispatchTable (levels : List (String × List String)) : String :=
 
 def handleC01 : List String → String
   | ["dispatch", levels] => dispatchTable (parseLevels levels)
+  | ["comp", xs, cond, elem] =>
+    -- a comprehension over the listed values with one of the harness's condition / element families
+    let vals : List Int := (xs.splitOn ",").filterMap String.toInt?
+    let c : Option (Int → Bool) := match cond with
+      | "mod2" => some fun x => x.fmod 2 == 0 | "mod3" => some fun x => x.fmod 3 == 1 | "lt" => some fun x => x < 4
+      | "gt" => some fun x => x > 0 | "ne" => some fun x => x != 2 | "all" => some fun _ => true | _ => none
+    let e : Option (Int → Int) := match elem with
+      | "id" => some id | "add" => some (· + 1) | "mul" => some (· * 10) | "sub" => some (· - 3)
+      | "rsub" => some (7 - ·) | "sq" => some fun x => x * x | _ => none
+    (match c, e with
+    | some c, some e =>
+      let r := Incan.Comp.meaning vals c e
+      s!"{r.length} {if r.isEmpty then "-" else ",".intercalate (r.map toString)}"
+    | _, _ => "bad-op")
   | [_kind, args, enc, _py] =>
     (match parseCB (enc.splitOn ";") with
     | some (body, []) =>
